@@ -3,6 +3,7 @@
 # copies a confirmed seeded change into seeded/<Cxx>/mutation_<k>/ with the meta.json this repository uses
 src="$1"; p="$2"; k="$3"; caught="$4"; clog="${5:-}"
 d=/verif/seeded/$p/mutation_$k
+if [ -e "$d" ]; then echo "refusing to overwrite $d" >&2; exit 2; fi
 mkdir -p "$d"
 cp "$src/patch.diff" "$d/"
 for f in demo.rs demo.py notes.md; do [ -f "$src/$f" ] && cp "$src/$f" "$d/"; done
